@@ -18,9 +18,10 @@ import (
 // the source yields. Nothing of the analysed program is executed: the evaluator
 // folds the expression tree the way the constant-table evaluator folds literals.
 type BytePred struct {
-	P     *Program
-	Steps int
-	ctl   int // an unlabelled break or continue travelling to its loop
+	P          *Program
+	Steps      int
+	ctl        int                   // an unlabelled break or continue travelling to its loop
+	initFolded map[types.Object]bool // tables whose filling init function has been folded
 	// OutOfRange describes the index expression that left a bound text (the fold fails there: the code would panic).
 	OutOfRange string
 	// Stores collects `T[i] = v` assignments to package-level tables made by interpreted
@@ -373,6 +374,43 @@ func (bp *BytePred) evalRaw(info *types.Info, e ast.Expr, env bpEnv, depth int) 
 				bp.tables[obj] = t
 			}
 			if t == nil || t.Opaque {
+				// a table filled by a loop in an init function: the loop is folded once and its stores are read
+				if bp.initFolded == nil {
+					bp.initFolded = map[types.Object]bool{}
+				}
+				if !bp.initFolded[obj] {
+					bp.initFolded[obj] = true
+					for _, f := range pk.Syntax {
+						for _, d := range f.Decls {
+							fd, isFn := d.(*ast.FuncDecl)
+							if !isFn || fd.Recv != nil || fd.Name.Name != "init" || fd.Body == nil {
+								continue
+							}
+							fills := false
+							ast.Inspect(fd.Body, func(m ast.Node) bool {
+								if as, isAs := m.(*ast.AssignStmt); isAs {
+									for _, l := range as.Lhs {
+										if ix, isIx := Unparen(l).(*ast.IndexExpr); isIx && ObjOf(pk.TypesInfo, ix.X) == obj {
+											fills = true
+										}
+									}
+								}
+								return true
+							})
+							if fills {
+								steps, ctl := bp.Steps, bp.ctl
+								bp.Steps = 0
+								bp.exec(pk.TypesInfo, fd.Body.List, bpEnv{}, depth+1)
+								bp.Steps, bp.ctl = steps, ctl
+							}
+						}
+					}
+				}
+				if st, filled := bp.Stores[obj]; filled {
+					if at, isArr := obj.Type().Underlying().(*types.Array); isArr && iv.I >= 0 && iv.I < at.Len() {
+						return bpVal{I: st[iv.I]}, true
+					}
+				}
 				return bpVal{}, false
 			}
 			if t.Len >= 0 && (iv.I < 0 || iv.I >= int64(t.Len)) {
@@ -525,6 +563,16 @@ func (bp *BytePred) evalRaw(info *types.Info, e ast.Expr, env bpEnv, depth int) 
 			for _, nm := range f.Names {
 				if k >= len(x.Args) {
 					return bpVal{}, false
+				}
+				// a bound text handed on as an argument stays bound under the parameter's name
+				if id, isID := Unparen(x.Args[k]).(*ast.Ident); isID {
+					if bs, bound := bp.Strings[ObjOf(info, id)]; bound {
+						if bp.Strings != nil {
+							bp.Strings[cinfo.Defs[nm]] = bs
+						}
+						k++
+						continue
+					}
 				}
 				v, ok := bp.evalV(info, x.Args[k], env, depth+1)
 				if !ok {
